@@ -413,7 +413,7 @@ void runEndian(const Plan& p)
 
 } // namespace
 
-REGISTER_SCENARIO(c16_endian, "C16", "endian_streams", genEndian, runEndian, 60000, 3000000, {2, 8}, 0, 1000000, 300.0,
+REGISTER_SCENARIO(c16_endian, "C16", "endian_streams", genEndian, runEndian, 150000, 8000000, {2, 8}, 0, 1000000, 300.0,
                   "non-trivial: an Array item with >=1 element was written, or (socket leg) a read was fragmented by the stub; distinct by plan hash x context-switch signature",
                   "include/asl/StreamBuffer.h, File.h stream operators + src/File.cpp, Socket.h stream operators + src/Socket.cpp (Socket_::read/write loops), defs.h swapBytes",
                   "disk (VFS behind fopencookie), network (TCP stub: fragmented reads, short sends, latency, small send buffers, byte capture per connection), pthread primitives", false);
